@@ -1,4 +1,6 @@
 import IV.Lemmas.ClientLoad
+import IV.Lemmas.OfflineGraph
+import IV.Gen.OfflineSites
 /-!
 C16 — client options resolve by precedence, and offline means no network.
 
@@ -184,10 +186,10 @@ theorem unknown_dropped (inp : Input) (s : Dict) (h : loadAll inp = .ok s) (k : 
     dget s k = none := by
   obtain ⟨s0, cli0, s1, hc, _, hp, hf⟩ := loadAll_ok inp s h
   have k0 : Known s0 := by
-    unfold construct at hc
+    unfold construct constructStore at hc
     obtain ⟨e, _, _⟩ := finish_ok _ _ _ hc
     rw [e]
-    exact known_fromCfg _ _ (known_updateDict _ _ (known_updateDict _ _ known_nil))
+    exact known_fromCfg _ _ (known_updateDict _ _ (known_updateDict _ _ (known_updateDict _ _ known_nil)))
   have k1 : Known s1 := by
     unfold preImply at hp
     simp only [] at hp
@@ -313,8 +315,9 @@ theorem finish_print_errors_irrelevant (facts : Facts) (b1 b2 : Bool) (cli : Opt
 theorem print_errors_irrelevant (inp : Input) (b : Bool) :
     loadAll { inp with printErrors := b } = loadAll inp := by
   have hp : ∀ s0 cli, preImply { inp with printErrors := b } s0 cli = preImply inp s0 cli := fun _ _ => rfl
+  have hc : constructStore { inp with printErrors := b } = constructStore inp := rfl
   unfold loadAll construct
-  simp only [hp, finish_print_errors_irrelevant inp.facts b inp.printErrors]
+  simp only [hp, hc, finish_print_errors_irrelevant inp.facts b inp.printErrors]
 /-! ## the legacy section (repaired by /repo 8686086; regression witness corpus/C16/legacy-section-typed-option.json) -/
 
 /-- full statement: a file with only the legacy section [redhat-access-insights] contributes its items exactly like
@@ -331,5 +334,138 @@ theorem legacy_section_value (items : List (Str × Str)) (d : Dict) (h : coerceA
 
 example : fileDict (.legacy [(['a','u','t','o','_','u','p','d','a','t','e'], ['F','a','l','s','e'])]) =
     [(['a','u','t','o','_','u','p','d','a','t','e'], .bool false)] := by decide
+
+/-! ## Part 4 (round 10): offline as the run-time guard, repeated implication, the constructor's own layers
+
+Every place of insights/client that opens a connection tests `config.offline` at run time (the harness enumerates
+those sites and drives the guards).  What the loader owes them: `_imply_options` never changes `offline`, so the
+value the guards see is the one precedence gave (`loaded_offline_is_resolved`); and `_imply_options` runs more than
+once on one object (`__init__`, then every `load_all`) — a second run changes none of the four attributes the
+offline clause is about (`imply_idem_offline_clause`). -/
+
+/-- `_imply_options` never writes `offline` -/
+theorem offline_preserved (env : Env) (cfg : Cfg) : imply env cfg Attr.offline = cfg Attr.offline := by
+  cfg_simp
+
+example : imply (concreteEnv [] false none) (toCfg [("offline".toList, .bool true)]) Attr.offline = .bool true := by
+  decide
+
+/-- IDEMPOTENCE on the offline clause: applying `_imply_options` twice (with the same environment) leaves `offline`,
+`no_upload`, `register`, `auto_update` with the truth values of applying it once -/
+theorem imply_idem_offline_clause (env : Env) (cfg : Cfg) :
+    imply env (imply env cfg) Attr.offline = imply env cfg Attr.offline ∧
+    truthy (imply env (imply env cfg) Attr.no_upload) = truthy (imply env cfg Attr.no_upload) ∧
+    truthy (imply env (imply env cfg) Attr.register) = truthy (imply env cfg Attr.register) ∧
+    truthy (imply env (imply env cfg) Attr.auto_update) = truthy (imply env cfg Attr.auto_update) := by
+  refine ⟨?_, ?_, ?_, ?_⟩
+  · cfg_simp
+  · cfg_simp
+    simp only [apply_ite truthy]
+    repeat' split
+    all_goals simp_all
+  · cfg_simp
+    (try simp only [apply_ite truthy])
+    repeat' split
+    all_goals simp_all
+  · cfg_simp
+    (try simp only [apply_ite truthy])
+    repeat' split
+    all_goals simp_all
+
+example : truthy (imply (concreteEnv [] false none)
+    (toCfg [("offline".toList, .bool true), ("register".toList, .bool true)]) Attr.register) = false := by decide
+
+/-- in a successful load the attribute `offline` is exactly what the four sources resolved to (the store before
+implication): no implication can switch the run-time guard off or on -/
+theorem loaded_offline_is_resolved (inp : Input) (s : Dict) (h : loadAll inp = .ok s) :
+    ∃ s' : Dict, (∃ env, s = fromCfg (imply env (toCfg s')) s') ∧
+      ∀ v, dget s' Attr.offline.name = some v → dget s Attr.offline.name = some v := by
+  obtain ⟨_, _, s1, _, _, _, hf⟩ := loadAll_ok inp s h
+  obtain ⟨e, _, _⟩ := finish_ok _ _ _ hf
+  refine ⟨s1, ⟨_, e⟩, ?_⟩
+  intro v hv
+  rw [e, dget_fromCfg, hv]
+  have ha : attrOfName Attr.offline.name = some Attr.offline := rfl
+  simp only [Option.map, fcVal, ha, offline_preserved]
+  simp only [toCfg, hv, Option.getD]
+
+/-- the CONSTRUCTOR's layers: keyword argument, else the positional dict `args[0]`, else the built-in default — for
+every name, through the same `_update_dict` guard (unknown names and class attributes dropped in each layer) -/
+theorem construct_layers (inp : Input) (k : Str) :
+    dget (constructStore inp) k = (layer inp.kwargs k).orElse (fun _ => (layer inp.posArgs k).orElse (fun _ =>
+      (layer defaults k).orElse (fun _ => none))) := by
+  simp only [constructStore, dget_updateDict, layer, dget]
+
+/-- without a positional dict the constructor is the two-layer one (what `InsightsConfig(**kwargs)` does) -/
+theorem construct_no_positional (inp : Input) (h : inp.posArgs = []) :
+    constructStore inp = updateDict (updateDict [] defaults) inp.kwargs := by
+  simp [constructStore, h, updateDict, effective, dget, dupdate]
+
+example : layer [("offline".toList, .bool true), ("foo".toList, .int 1)] "foo".toList = none := by decide
+
+/-- PRECEDENCE ON A SECOND `load_all()`: what the repeated loading hands to `_imply_options` has, for every name, the value
+of the (cached) command line, else the environment, else the file named by `conf`, else what the first load left -/
+theorem reload_precedence (inp : Input) (s cli ed : Dict) (he : envDict inp.envVars = some ed) :
+    ∃ st, reloadAll inp s cli = finish (concreteEnv inp.facts inp.printErrors (some cli)) st ∧
+      ∀ k, dget st k = (layer cli k).orElse (fun _ => (layer ed k).orElse (fun _ =>
+        (layer (fileDict (fileAt inp.files (dget (updateDict s cli) kConf))) k).orElse (fun _ => dget s k))) := by
+  refine ⟨_, by unfold reloadAll; simp only [he]; rfl, ?_⟩
+  intro k
+  simp only [dget_updateDict, layer]
+  cases dlast (effective cli) k <;> simp
+
+example : envDict [("INSIGHTS_RETRIES".toList, "3".toList)] = some [("retries".toList, .int 3)] := by decide
+
+/-- `_load_config_file(fname=F)` with a non-empty `F` reads `F`: the path in `conf` plays no part -/
+theorem fname_overrides_conf (files : List (Str × FileSrc)) (s : Dict) (p : Str) (hp : p ≠ []) :
+    loadConfigFile files s (.str p) = updateDict s (fileDict (fileAt files (some (.str p)))) := by
+  have : truthy (.str p) = true := by cases p with
+    | nil => exact absurd rfl hp
+    | cons _ _ => simp [truthy]
+  simp [loadConfigFile, this]
+
+/-- … and without one (absent, `None`, the empty string) it is the file step of `load_all`: the file named by `conf` -/
+theorem fname_absent_reads_conf (files : List (Str × FileSrc)) (s : Dict) (f : PyVal) (hf : truthy f = false) :
+    loadConfigFile files s f = updateDict s (fileDict (fileAt files (dget s kConf))) := by
+  simp [loadConfigFile, hf]
+
+example : truthy (.str []) = false ∧ truthy .none = false := by decide
+
+/-- a second `load_all()` holds no unknown name either -/
+theorem reload_unknown_dropped (inp : Input) (s cli s2 : Dict) (hs : Known s) (h : reloadAll inp s cli = .ok s2) :
+    Known s2 := by
+  unfold reloadAll at h
+  simp only [] at h
+  split at h
+  · cases h
+  · obtain ⟨e, _, _⟩ := finish_ok _ _ _ h
+    rw [e]
+    exact known_fromCfg _ _ (known_updateDict _ _ (known_updateDict _ _ (known_updateDict _ _ (known_updateDict _ _ hs))))
+
+example : Known ([] : Dict) := known_nil
+
+/-! ## Part 5 (round 10): offline ⇒ no network, over the call graph of insights/client
+
+`IV.OfflineSites` is regenerated on every run by translate/offline_sites.py: every call site under insights/client whose
+callee can open a connection, with the flag "not executed while config.offline is true".  `Reaches` follows only the
+sites that ARE executed when offline.  No function that nothing else calls (the phases, the public methods of
+InsightsClient, the support dump, …) reaches a connection opener: the generated `openerSet` is closed (checked here, not
+trusted from the translator's fix-point) and contains no entry point. -/
+
+set_option maxRecDepth 20000 in
+theorem offline_entry_points_never_reach_network :
+    ∀ f ∈ IV.OfflineSites.entryPoints,
+      ¬ IV.OfflineGraph.Reaches IV.OfflineSites.seeds IV.OfflineSites.calls f := by
+  intro f hf hr
+  have hc : IV.OfflineGraph.closed IV.OfflineSites.openerSet IV.OfflineSites.seeds IV.OfflineSites.calls = true := by
+    decide
+  have hin := IV.OfflineGraph.reaches_in_closed _ _ _ hc f hr
+  have hd : IV.OfflineSites.entryPoints.all (fun f => !IV.OfflineSites.openerSet.contains f) = true := by decide
+  have := List.all_eq_true.mp hd f hf
+  simp at this
+  exact this hin
+
+example : IV.OfflineSites.calls.any (fun c => c.guarded) = true ∧ IV.OfflineSites.entryPoints ≠ [] ∧
+    IV.OfflineSites.seeds ≠ [] := by decide
 
 end IV.ClientLoad
